@@ -645,6 +645,18 @@ def check(prop, tier):
                 path = write_replay(prop, engines[0], "-", [], None, "", "", note="theorem no longer checks: " + broken_thm)
             violations.append((path, " no-failing-input-found"))
 
+    # --- runtime half (thorough tier only): -race stress, a reported data race is a concrete failing schedule
+    race = None
+    if tier == "thorough" and cfg.get("race"):
+        race = run_race(cfg["race"], seed)
+        if race["racy"]:
+            os.makedirs(os.path.join(ROOT, "replays"), exist_ok=True)
+            path = os.path.join(ROOT, "replays", "%s-race-%d.json" % (prop, seed))
+            json.dump({"property": prop, "engine": "racer", "kind": "data-race", "ops": [], "case": "-",
+                       "detail": "go -race reported a data race between lock-free readers and writers",
+                       "report": race["report"], "rerun": race["cmd"]}, open(path, "w"), indent=1)
+            violations.append((path, ""))
+
     # --- evidence
     discharged = len(names) if (thm_ok and a_ok) else 0
     axioms = sorted({a for _, axs in a_res for a in axs})
@@ -668,6 +680,8 @@ def check(prop, tier):
         "exhaustive": bool(cfg.get("exhaustive", False)),
     }
     ev["assumptions"] = cfg.get("assumptions", [])
+    if race is not None:
+        ev["coverage"]["race_stress"] = {k: race[k] for k in ("seconds", "racy", "cmd")}
     if chk is not None:
         ev["coverage"]["coqchk"] = {k: chk[k] for k in ("rc", "wall_s", "axioms", "cached")}
 
@@ -695,6 +709,29 @@ TRUSTED_COMMON = [
     "hand-written and trusted: ocaml/util.ml + ocaml/<engine>_drv.ml (parsing/printing), Go harness generators/oracles (harness/), lib/vcheck.py (comparison, shrinking)",
     "the model is hand-written; its tie to /repo is the correspondence check re-run on every check against the current working tree built with -tags verif",
 ]
+
+
+def run_race(rc_cfg, seed):
+    """Builds harness/cmd/racer with -race against REPO and runs it; exit code 66 / 'DATA RACE' = racy."""
+    secs = int(rc_cfg.get("seconds", 20))
+    with Lock():
+        src = open(os.path.join(REPO, "go.sum")).read()
+        modflag = []
+        if ALT:
+            alt = os.path.join(WORK, "alt%s.mod" % ALT)
+            open(alt, "w").write(open(os.path.join(HARNESS, "go.mod")).read().replace("=> /repo", "=> " + REPO))
+            open(alt[:-4] + ".sum", "w").write(src)
+            modflag = ["-modfile=" + alt]
+        exe = os.path.join("bin", "racer" + ALT)
+        rc, out = sh(["go", "build", "-race"] + modflag + ["-tags", "verif", "-o", exe, "./cmd/racer"], cwd=HARNESS, env=GOENV, timeout=1800)
+    cmd = "GORACE='halt_on_error=1 exitcode=66' %s -d %ds -seed %d" % (os.path.join(HARNESS, exe), secs, seed)
+    if rc != 0:
+        return {"seconds": secs, "racy": False, "cmd": cmd, "report": "racer does not build: " + out[-500:]}
+    env = dict(GOENV, GORACE="halt_on_error=1 exitcode=66")
+    p = subprocess.run([os.path.join(HARNESS, exe), "-d", "%ds" % secs, "-seed", str(seed)], env=env,
+                       stdout=subprocess.PIPE, stderr=subprocess.STDOUT, text=True, timeout=secs + 600)
+    racy = p.returncode == 66 or "DATA RACE" in p.stdout
+    return {"seconds": secs, "racy": racy, "cmd": cmd, "report": p.stdout[-6000:]}
 
 
 def coqchk(prop):
